@@ -2519,7 +2519,28 @@ def m_s_Delete(self, st, s, k):
 
 def m_s_Try(self, st, s, k):
     if s.finalbody:
-        raise Untranslated('try/finally')
+        # try ... finally F  ==  every way out of the (inner) try statement runs F first, in the outer context;
+        # whatever F does itself (raise, return) then takes precedence, as in python
+        outer0 = st.ctx
+        inner = ast.Try(body=s.body, handlers=s.handlers, orelse=s.orelse, finalbody=[])
+        ast.copy_location(inner, s)
+        fin = s.finalbody
+
+        def then(cont):
+            def w(st2, *a):
+                st2.ctx = outer0
+                return self.exec_block(st2, fin, lambda st3: cont(st3, *a))
+            return w
+        st.ctx = Ctx(then(outer0.on_return), then(outer0.on_raise),
+                     then(outer0.on_break) if outer0.on_break else None,
+                     then(outer0.on_continue) if outer0.on_continue else None)
+
+        def normal(st2):
+            st2.ctx = outer0
+            return self.exec_block(st2, fin, k)
+        if not s.handlers and not s.orelse:
+            return self.exec_block(st, s.body, normal)
+        return self.s_Try(st, inner, normal)
     outer = st.ctx
 
     def on_raise(st2, exc):
